@@ -108,11 +108,15 @@ def assocMSexp (a : AssocM) : Sexp := .list [.sym "assoc", txt a.relId, endMSexp
 def buildSexp (u : UC) : Except BuildErr BState → Sexp
   | .error .parseErr => .sym "parsing"
   | .error .metaErr => .sym "meta"
+  | .error .builtinErr => .sym "builtin"
+  | .error .unmodelled => .sym "unmodelled"
   | .ok s => .list [.sym "ok", .list (s.classes.map (classBSexp u)), .list ((s.toMM u).assocs.map assocMSexp)]
 
 def outcomeSexp : Except BuildErr BState → Sexp
   | .error .parseErr => .sym "parsing"
   | .error .metaErr => .sym "meta"
+  | .error .builtinErr => .sym "builtin"
+  | .error .unmodelled => .sym "unmodelled"
   | .ok _ => .sym "ok"
 
 end Pyx.Sql.Wire
